@@ -207,6 +207,14 @@ def check(ck):
         okk = t is not None and t[0] == "call" and t[1] == ("attr", ("param", "self"), "_run_request")
         ck.require(okk, "C06.4", "%s: check_for_errors(<own reply>)" % q.fn(fnot), "checks its own _run_request result",
                    "check_for_errors is applied to %s" % (prov.show(t) if t else "nothing"), q.loc(fnot, n))
+    from vlib.flow import postdominators, NORMAL
+    pdn = postdominators(gn, [gn.return_exit.id], NORMAL)
+    runs_n = [n for n in gn.live_nodes() for c in node_calls(n) if dump(c.func) == "self._run_request"]
+    for rn_ in runs_n:
+        ck.require(any(n.id in pdn[rn_.id] for (n, _c) in cs), "C06.4", "%s: the check follows the exchange on every normal path" % q.fn(fnot),
+                   "check_for_errors post-dominates _run_request",
+                   "after the exchange a notification call can return without check_for_errors having seen the reply: an error reply (e.g. with "
+                   "a null id) is swallowed", q.loc(fnot, rn_))
     frun = prog.func("jsonrpc", "ServerProxy._run_request")
     gr = cfg_of(frun)
     dr = dominators(gr)
